@@ -135,6 +135,53 @@ def facts_at(S, fn, node, point=None):
     return facts
 
 
+def call_truth_edges(fn, pg, call):
+    """(points reached when the result of `call` was found true / non-NULL, points reached when it was found false / NULL):
+    the branch may test the call itself, or a local that holds its result - by truth, `!= 0`, `== NULL`, ..."""
+    holders = set()
+    par = fn.parent_of(call)
+    while par is not None and par.k in ("ImplicitCastExpr", "ParenExpr", "CStyleCastExpr"):
+        par = fn.parent_of(par)
+    if par is not None and par.k == "BinaryOperator" and par.get("op") == "=":
+        t = par.child(0).strip()
+        if t.k == "DeclRefExpr" and t["decl"]["kind"] == "local":
+            holders.add(t["decl"]["name"])
+    for d in fn.nodes.values():
+        if d.k == "DeclStmt":
+            for dd in d.get("decls", []):
+                if "init" in dd and fn.nodes[dd["init"]].strip_all_casts() is call:
+                    holders.add(dd["name"])
+    # a holder must not be assigned from anything else
+    for h in list(holders):
+        others = [n for n, t in C.stores(fn) if t.get("path") == h and not (n.get("op") == "=" and n.child(1).strip_all_casts() is call)]
+        if others:
+            holders.discard(h)
+    true_dst, false_dst = [], []
+    for p_, es in pg.out.items():
+        for e in es:
+            if e.kind != "edge" or not e.label or e.label[0] not in ("true", "false") or e.label[1] is None:
+                continue
+            for atom, pol in C.cond_facts(e.label[1], e.label[0] == "true"):
+                if isinstance(pol, tuple):
+                    continue
+                a = atom.strip_all_casts()
+                t = None
+                if atom is call or a is call:
+                    t = pol
+                elif a.k == "DeclRefExpr" and a.get("path") in holders:
+                    t = pol
+                elif a.k == "BinaryOperator" and a.get("op") in ("==", "!="):
+                    for xs, cs in ((a.child(0), a.child(1)), (a.child(1), a.child(0))):
+                        x_ = xs.strip_all_casts()
+                        if (x_ is call or (x_.k == "DeclRefExpr" and x_.get("path") in holders)) and (C.const_of(cs) == 0 or C.is_null(cs)):
+                            t = pol if a["op"] == "!=" else (not pol)
+                if t is True:
+                    true_dst.append(e.dst)
+                elif t is False:
+                    false_dst.append(e.dst)
+    return true_dst, false_dst, holders
+
+
 def committed_exits(S, fn, value=0):
     """Points from which the function is committed to returning the constant `value`, whatever the spelling: the point in
     front of `return <value>`, and - when the function returns a result variable - every first point at which that
